@@ -274,4 +274,102 @@ theorem table_write_faults (c : Cfg) (t : Table) (hrep : ∀ w ∈ tableCalls c 
 example : (emit (some 2) fhWrite).1 = .io ∧ (emit (some 2) fhWrite).2 = [0xdf, 0x5b] ∧
     (emit (some 5) fhWrite).1 = .ok := by decide
 
+/-! ### behind stdio buffering (repair F27)
+
+The theorems above are about a stream that refuses bytes from some offset on and keeps refusing —
+what the `fwrite` shim of the correspondence provides.  A real `FILE` sits in front of the device
+with a buffer: what fits the buffer is reported as written, and when a flush fails stdio drops the
+buffer and sets the error indicator.  A writer that looks only at the count `fwrite` reports can
+then say OK right after a failure (the small write fits the emptied buffer), and on a
+line-buffered stream even for the write during which the device refused.  Since the repair every
+writer also consults the indicator; the small model below shows that this is enough for every
+buffer size, device limit and sequence of writes, and exhibits the old behaviour.  (Tie:
+`harness/realsink.c` — `/dev/full` and a pipe nobody reads behind real stdio.) -/
+/-- a stdio stream in front of a device that accepts `room` more bytes: `buf` bytes are held
+    back in the buffer of capacity `cap`, `err` is the stream's error indicator -/
+structure BufSt where
+  cap : Nat
+  room : Nat
+  buf : Nat
+  err : Bool
+  /-- line buffered: a flush triggered by a newline inside the data fails *after* `fwrite` has
+      counted the data as written — the full count is reported although the indicator is set -/
+  quiet : Bool := false
+  deriving Repr, DecidableEq
+
+/-- `fwrite` of `n` bytes as stdio does it: what fits the buffer is absorbed and reported as
+    written; otherwise buffer and data go to the device, and if the device does not take all of it
+    the buffer is dropped, the error indicator is set and a short count is reported -/
+def bufFwrite (s : BufSt) (n : Nat) : BufSt × Bool :=
+  if s.buf + n ≤ s.cap then ({ s with buf := s.buf + n }, true)
+  else if s.buf + n ≤ s.room then ({ s with buf := 0, room := s.room - (s.buf + n) }, true)
+  else ({ s with buf := 0, room := 0, err := true }, s.quiet)
+
+/-- a writer of the library before the repair: only the count `fwrite` reports is looked at -/
+def writeOld (s : BufSt) (n : Nat) : BufSt × Bool := bufFwrite s n
+
+/-- ... and since the repair (F27): the error indicator is consulted as well -/
+def writeNew (s : BufSt) (n : Nat) : BufSt × Bool :=
+  let r := bufFwrite s n
+  (r.1, r.2 && !r.1.err)
+
+def bufRun (w : BufSt → Nat → BufSt × Bool) : BufSt → List Nat → List Bool
+  | _, [] => []
+  | s, n :: ns => (w s n).2 :: bufRun w (w s n).1 ns
+
+theorem buf_err_sticky (s : BufSt) (n : Nat) (h : s.err = true) : (bufFwrite s n).1.err = true := by
+  unfold bufFwrite; split
+  · exact h
+  · split
+    · exact h
+    · rfl
+
+theorem buf_fail_sets_err (s : BufSt) (n : Nat) (h : (writeNew s n).2 = false) : (writeNew s n).1.err = true := by
+  unfold writeNew at *
+  simp only [Bool.and_eq_false_iff] at h
+  rcases h with h | h
+  · unfold bufFwrite at h ⊢
+    split at h
+    · simp at h
+    · split at h
+      · simp at h
+      · simp only; split
+        · rename_i h1 _ _; omega
+        · rfl
+  · simpa using h
+
+/-- since the repair: once a write has failed, every later write to that stream fails, for every
+    buffer size, every device limit and every sequence of write sizes -/
+theorem buf_new_sticky (s : BufSt) (h : s.err = true) (ns : List Nat) : ∀ b ∈ bufRun writeNew s ns, b = false := by
+  induction ns generalizing s with
+  | nil => intro b hb; simp [bufRun] at hb
+  | cons n ns ih =>
+    intro b hb
+    simp only [bufRun, List.mem_cons] at hb
+    have he : (writeNew s n).1.err = true := buf_err_sticky s n h
+    rcases hb with rfl | hb
+    · have he' : (bufFwrite s n).1.err = true := he
+      simp [writeNew, he']
+    · exact ih _ he b hb
+
+theorem buf_no_ok_after_failure (s : BufSt) (n : Nat) (ns : List Nat) (h : (writeNew s n).2 = false) :
+    ∀ b ∈ bufRun writeNew (writeNew s n).1 ns, b = false :=
+  buf_new_sticky _ (buf_fail_sets_err s n h) ns
+
+/-- before the repair: a 64-byte buffer in front of a full device — the write that overflows the
+    buffer fails, the next small one is absorbed by the emptied buffer and reports success -/
+example : bufRun writeOld ⟨64, 0, 0, false, false⟩ [5, 100, 3, 3] = [true, false, true, true] := by decide
+example : bufRun writeNew ⟨64, 0, 0, false, false⟩ [5, 100, 3, 3] = [true, false, false, false] := by decide
+
+/-- whatever count `fwrite` reports, a write during which the device refused bytes is reported
+    as failed by the call in progress (the line-buffered case) -/
+theorem buf_reports_in_progress (s : BufSt) (n : Nat) (h : (bufFwrite s n).1.err = true) : (writeNew s n).2 = false := by
+  simp [writeNew, h]
+
+/-- before the repair the line-buffered stream swallowed it: every call says OK -/
+example : bufRun writeOld ⟨64, 0, 0, false, true⟩ [5, 100, 3] = [true, true, true] := by decide
+example : bufRun writeNew ⟨64, 0, 0, false, true⟩ [5, 100, 3] = [true, false, false] := by decide
+
+
+
 end Sbdf.C13
